@@ -425,8 +425,9 @@ class MyPyAstVisitor:
                     for item in lvalue.items:
                         names.append(item.name)
                 else:
-                    if not hasattr(lvalue, "name"):  # pragma: no cover
-                        raise AttributeError("Expected lvalue to have attribtue 'name'.")
+                    if not hasattr(lvalue, "name"):
+                        # Assignments like "d['key'] = 1" in the enum body do not define enum instances
+                        continue
                     names.append(lvalue.name)
 
                 for name in names:
